@@ -325,9 +325,9 @@ def run(chk):
     ops = []
     for c in known_cases(table):
         ops += c
-    for c in exhaustive_cases(table, 1500 if quick else 10**6, rng):
+    for c in exhaustive_cases(table, 6000 if quick else 10**6, rng):
         ops += c
-    ncases = 1200 if quick else 30000
+    ncases = 6000 if quick else 60000
     for i in range(ncases):
         # rotation: every class of the table is the focus of some cases; focus cases stack few classes so that
         # same-class assignments and moves are frequent
@@ -336,10 +336,10 @@ def run(chk):
         ops += gen_case(rng, table, rng.choice([6, 10, 16, 30]), classes=focus if i % 5 else None)
     stats = corr.correspond(chk, AREA, exe, ops, case_start=CASE_START, classify=classify, sig_of=sig_of)
     if not quick:
-        for _ in range(3):
+        for _ in range(4):
             ops = []
-            for i in range(400):
-                ops += gen_case(rng, table, 120)
+            for i in range(1500):
+                ops += gen_case(rng, table, 150)
             stats += corr.correspond(chk, AREA, exe, ops, case_start=CASE_START, classify=classify, sig_of=sig_of)
     for p in problems:
         found = stats.get("spec", 0) + stats.get("fault", 0)
